@@ -47,6 +47,20 @@ class FakeSocket:
     def getsockname(self): return self.bound
     def sendto(self, data, remote):
         Net.log.append((self.bound[1], remote[0], remote[1], bytes(data)))
+    # a connected UDP socket: send() goes to the peer, and the kernel hands over only datagrams that come FROM the peer
+    def connect(self, remote):
+        self.peer = (remote[0], remote[1])
+    def send(self, data):
+        if getattr(self, "peer", None) is None:
+            raise OSError(89, "Destination address required")
+        self.sendto(data, self.peer)
+    def deliver(self, data, remote):
+        """a datagram arrives from `remote`: queued (True) unless the socket is connected to somebody else"""
+        peer = getattr(self, "peer", None)
+        if peer is not None and (ADDR.get(peer[0], peer[0]), peer[1]) != (ADDR.get(remote[0], remote[0]), remote[1]):
+            return False
+        self.inq.append((data, remote))
+        return True
     def recvfrom(self, n):
         data, remote = self.inq.pop(0)
         return data[:n], remote
@@ -436,13 +450,13 @@ def run_line(line):
             if t[0] == "C":
                 trx = trxs[int(t[1])]
                 data = bytes.fromhex(t[3]) if t[3] != "-" else b""
-                trx.ctrl_if.sock.inq.append((data, (trx.remote_addr, int(t[2]))))
-                trx.ctrl_if.handle_rx()
+                if trx.ctrl_if.sock.deliver(data, (trx.remote_addr, int(t[2]))):
+                    trx.ctrl_if.handle_rx()          # the main loop calls it when select() reports the socket readable
             elif t[0] == "D":
                 trx = trxs[int(t[1])]
                 data = bytes.fromhex(t[2]) if t[2] != "-" else b""
-                trx.data_if.sock.inq.append((data, (trx.remote_addr, trx.data_if.remote_port)))
-                trx.recv_data_msg()
+                if trx.data_if.sock.deliver(data, (trx.remote_addr, trx.data_if.remote_port)):
+                    trx.recv_data_msg()
             elif t[0] == "T":
                 if app.clck_gen.running:
                     if USE_WORKER:
